@@ -380,12 +380,16 @@ func (t *Topic) maybeEndCallInProgress(from string, msg *ClientComMessage, callD
 	}
 	t.callEstablishmentTimer.Stop()
 	originatorUid, _ := t.getCallOriginator()
+	// The call is over as far as the topic is concerned. Publishing the closing message below may drop a stuck
+	// session of a call party, which must not end the same call again (and again).
+	call := t.currentCall
+	t.currentCall = nil
 	var replaceWith string
 	var callDuration int64
-	if from != "" && len(t.currentCall.parties) == 2 {
+	if from != "" && len(call.parties) == 2 {
 		// This is a call in progress.
 		replaceWith = constCallMsgFinished
-		callDuration = time.Since(t.currentCall.acceptedAt).Milliseconds()
+		callDuration = time.Since(call.acceptedAt).Milliseconds()
 	} else {
 		if from != "" {
 			// User originated hang-up.
@@ -414,19 +418,18 @@ func (t *Topic) maybeEndCallInProgress(from string, msg *ClientComMessage, callD
 	if msgCopy.Pub != nil {
 		origHead = msgCopy.Pub.Head
 	} // else fetch the original message from store and use its head.
-	head := t.currentCall.messageHead(origHead, replaceWith, int(callDuration))
-	if err := t.saveAndBroadcastMessage(&msgCopy, originatorUid, false, nil, head, t.currentCall.content); err != nil {
-		logs.Err.Printf("topic[%s]: failed to write finalizing message for call seq id %d - '%s'", t.name, t.currentCall.seq, err)
+	head := call.messageHead(origHead, replaceWith, int(callDuration))
+	if err := t.saveAndBroadcastMessage(&msgCopy, originatorUid, false, nil, head, call.content); err != nil {
+		logs.Err.Printf("topic[%s]: failed to write finalizing message for call seq id %d - '%s'", t.name, call.seq, err)
 	}
 
 	// Send {info} hangup event to the subscribed sessions.
-	t.broadcastToSessions(t.currentCall.infoMessage(constCallEventHangUp))
+	t.broadcastToSessions(call.infoMessage(constCallEventHangUp))
 
 	// Let all other sessions know the call is over.
 	for tgt := range t.perUser {
-		t.infoCallSubsOffline(from, tgt, constCallEventHangUp, t.currentCall.seq, nil, "", true)
+		t.infoCallSubsOffline(from, tgt, constCallEventHangUp, call.seq, nil, "", true)
 	}
-	t.currentCall = nil
 }
 
 // Server initiated call termination.
